@@ -27,6 +27,36 @@ def corpus():
     return out
 
 
+def repo_corpus():
+    """every entrait invocation found in the repository's own tests, examples, doc comments and README
+    (extracted with syn by the harness from the working tree on every run), under the plain variant and
+    the variant the `unimock` cargo feature selects"""
+    import glob
+    import subprocess
+    files = []
+    for pat in ("tests/**/*.rs", "examples/**/*.rs", "src/**/*.rs", "entrait_macros/src/**/*.rs", "README.md"):
+        files += sorted(glob.glob(os.path.join(runner.REPO, pat), recursive=True))
+    files = [f for f in files if "/target/" not in f]
+    os.makedirs(runner.WORK, exist_ok=True)
+    out = os.path.join(runner.WORK, "repo_corpus.tsv")
+    exe = os.path.join(runner.HARNESS, "target", "debug", "entrait_verif_harness")
+    try:
+        subprocess.run([exe, "extract", out] + files, check=True, timeout=120, stdout=subprocess.DEVNULL, stderr=subprocess.DEVNULL)
+    except Exception:
+        return []
+    cases = []
+    feature = {"plain": "unimock", "export": "export_unimock"}
+    for k, line in enumerate(open(out)):
+        parts = line.rstrip("\n").split("\t")
+        if len(parts) < 4:
+            continue
+        kind, variant, attr, item = parts[0], parts[1], parts[2], parts[3]
+        cases.append(("repo%d_%s" % (k, kind), variant, attr, item, ""))
+        if variant in feature:
+            cases.append(("repo%df_%s" % (k, kind), feature[variant], attr, item, ""))
+    return cases
+
+
 # ------------------------------------------------------------------------------------------------
 # focused generators
 # ------------------------------------------------------------------------------------------------
@@ -232,8 +262,9 @@ def c17_table():
 def plan(prop, tier, seed):
     n = QUICK_N if tier == "quick" else THOROUGH_N
     g = gen.Gen(seed)
-    cases = corpus()
-    rule = ("Inputs are Rust text: the hand-written corpus (README examples, regressions) first, then %d cases "
+    cases = corpus() + repo_corpus()
+    rule = ("Inputs are Rust text: the hand-written corpus (README examples, regressions) and every entrait invocation "
+            "extracted from the repository's own tests, examples, doc comments and README first, then %d cases "
             "from the seeded grammar of fn / mod / trait / impl-block invocations (tools/gen.py) with all "
             "four macro variants and random option sets, plus a malformed stream.") % n
     exhaustive = False
